@@ -3,6 +3,7 @@ package props
 import (
 	"encoding/json"
 	"fmt"
+	"github.com/ja7ad/otp"
 	"strings"
 
 	"verifh/gen"
@@ -14,6 +15,23 @@ import (
 type ocraVCase struct {
 	Base      ocraCase `json:"base"`
 	Submitted []string `json:"submitted_hex"`
+}
+
+// presentDirty returns the same field contents, each as a window (len = content) into its own larger buffer whose
+// bytes behind the window are non-zero.
+func presentDirty(in otp.OCRAInput) otp.OCRAInput {
+	w := func(b []byte) []byte {
+		if b == nil {
+			return nil
+		}
+		buf := make([]byte, len(b)+300)
+		for i := range buf {
+			buf[i] = 0xEE ^ byte(i)
+		}
+		copy(buf, b)
+		return buf[:len(b)]
+	}
+	return otp.OCRAInput{Counter: w(in.Counter), Challenge: w(in.Challenge), Password: w(in.Password), SessionInfo: w(in.SessionInfo), Timestamp: w(in.Timestamp)}
 }
 
 func judgeOCRAV(c *Ctx, k ocraVCase) {
@@ -30,7 +48,17 @@ func judgeOCRAV(c *Ctx, k ocraVCase) {
 	if serr != nil || suite == nil {
 		return // no suite value to validate against (constructor refused)
 	}
-	g, gerr, gpan := callGenerateOCRA(b.Secret, suite, in)
+	// "the same data" may reach generation and validation in different containers: in two of three cases one side gets
+	// every field as a window into a larger buffer whose spare capacity holds other (non-zero) bytes, the other side exact copies
+	genIn, valIn := in, in
+	switch (len(b.Secret) + len(b.Suite.Raw) + b.Suite.Digits + len(in.Challenge)) % 3 {
+	case 1:
+		genIn = presentDirty(in)
+	case 2:
+		valIn = presentDirty(in)
+	}
+	g, gerr, gpan := callGenerateOCRA(b.Secret, suite, genIn)
+	in = valIn
 	r.Eval(1)
 	if gpan != nil {
 		if r.Prop == "C06" {
